@@ -159,24 +159,81 @@ def pDict (s : String) : List (Nat × Nat) :=
     | [k, v] => (pN k, pN v)
     | _ => (0, 0)
 
+def fPErr : PErr → String
+  | .typeError => "E:TypeError" | .keyError => "E:KeyError" | .valueError => "E:ValueError"
+
+/-- PDFSet history.  ops: `a:<d>:<p>:<axes>` add_pdf · `an:<d>` add a non-PDF · `ao:<p>` add with a non-dict ·
+`g:<d>` get by dict · `gk:<d>` get by the key of d · `go` get by something else · `c:<d>` / `ck:<d>` / `co`
+the same for `in` · `mh:<d>` / `mhn` / `mho` make_dict_hash (ok / E) · `vals` the stored PDFs in key order.
+The legacy forms `a:<d>:<p>` and `g:<d>` answer `ok` / `E` / `<p>`. -/
 def pdfsetRun (ops : List String) : String := Id.run do
-  let mut s : List (List (Nat × PyVal) × Nat) := []
+  let mut s : List (List (Nat × PyVal) × (Nat × Nat)) := []
   let mut outs : Array String := #[]
+  let addRes := fun (r : Except PErr (List (List (Nat × PyVal) × (Nat × Nat)))) (legacy : Bool) =>
+    match r with
+    | .ok s' => (some s', "ok")
+    | .error e => (none, if legacy then "E" else fPErr e)
   for o in ops do
     match o.splitOn ":" with
     | ["a", d, p] =>
-        match addGridPdf id s (pVDict d) (pN p) with
-        | none => outs := outs.push "E"
-        | some s' => s := s'; outs := outs.push "ok"
-    | ["g", d] =>
-        match getGridPdf id s (pVDict d) with
-        | none => outs := outs.push "E"
-        | some p => outs := outs.push (toString p)
+        let (s', r) := addRes (addPdfE id s (.pdf (pN p) 0) (.dict (pVDict d))) true
+        s := s'.getD s; outs := outs.push r
+    | ["a", d, p, ax] =>
+        let (s', r) := addRes (addPdfE id s (.pdf (pN p) (pN ax)) (.dict (pVDict d))) false
+        s := s'.getD s; outs := outs.push r
+    | ["an", d] =>
+        let (s', r) := addRes (addPdfE id s .notPdf (.dict (pVDict d))) false
+        s := s'.getD s; outs := outs.push r
+    | ["ao", p] =>
+        let (s', r) := addRes (addPdfE id s (.pdf (pN p) 0) .other) false
+        s := s'.getD s; outs := outs.push r
+    | ["g", d] => outs := outs.push (match getPdfE id s (.dict (pVDict d)) with | .ok p => toString p | .error _ => "E")
+    | ["gd", d] => outs := outs.push (match getPdfE id s (.dict (pVDict d)) with | .ok p => toString p | .error e => fPErr e)
+    | ["gk", d] => outs := outs.push (match getPdfE id s (.key (gridKey id (pVDict d))) with | .ok p => toString p | .error e => fPErr e)
+    | ["go"] => outs := outs.push (match getPdfE id s .other with | .ok p => toString p | .error e => fPErr e)
+    | ["c", d] => outs := outs.push (match containsE id s (.dict (pVDict d)) with | .ok b => fB b | .error e => fPErr e)
+    | ["ck", d] => outs := outs.push (match containsE id s (.key (gridKey id (pVDict d))) with | .ok b => fB b | .error e => fPErr e)
+    | ["co"] => outs := outs.push (match containsE id s .other with | .ok b => fB b | .error e => fPErr e)
+    | ["mh", d] => outs := outs.push (match makeDictHash id (some (.dict (pVDict d))) with | .ok _ => "ok" | .error e => fPErr e)
+    | ["mhn"] => outs := outs.push (match makeDictHash (K := Nat) id none with
+        | .ok k => (if k == gridKey id [] then "ok" else "differs") | .error e => fPErr e)
+    | ["mho"] => outs := outs.push (match makeDictHash (K := Nat) id (some .other) with | .ok _ => "ok" | .error e => fPErr e)
+    | ["vals"] => outs := outs.push (fListD (fun (e : List (Nat × PyVal) × (Nat × Nat)) => toString e.2.1) s)
     | _ => outs := outs.push "bad-op"
   return String.intercalate " " outs.toList
 
 def pStages (s : String) : Stages :=
   if s.startsWith "i" then .one (pN (s.drop 1).toString) else .many (pList pN (s.drop 1).toString)
+
+/-- `i<m>` int · `l<m,m>` iterable · `x` a scalar that is not an int -/
+def pStagesArg (s : String) : StagesArg :=
+  if s.startsWith "i" then .int (pN (s.drop 1).toString)
+  else if s.startsWith "x" then .scalar else .iter (pList pN (s.drop 1).toString)
+
+def fOB : Option Bool → String | some b => fB b | none => "E"
+
+/-- DatasetCollection history: `a:<id.name.isds;…>` add · `r:<name>` remove · `g:<name>` get
+    -> per step  <ok | id | E:…>#<sorted names>#<names in insertion order> -/
+def dscRun (ops : List String) : String := Id.run do
+  let mut s : List (Nat × Nat) := []
+  let mut outs : Array String := #[]
+  for o in ops do
+    let op? : Option (DsOp Nat) := match o.splitOn ":" with
+      | ["a", ds] => some (.add ((if ds == "-" then [] else ds.splitOn ";").map fun e =>
+          match e.splitOn "." with
+          | [i, n, b] => { id := pN i, name := pN n, isDataset := b == "1" }
+          | _ => { id := 0, name := 0, isDataset := false }))
+      | ["r", n] => some (.remove (pN n))
+      | ["g", n] => some (.get (pN n))
+      | _ => none
+    match op? with
+    | none => outs := outs.push "bad-op"
+    | some op =>
+        let (s', r) := dsStep s op
+        s := s'
+        let rs := match r with | .ok none => "ok" | .ok (some i) => toString i | .error e => fErr e
+        outs := outs.push s!"{rs}#{fListD toString (datasetNames s)}#{fListD toString (odKeys s)}"
+  return String.intercalate " " outs.toList
 
 def pPath (s : String) : List Nat := if s == "_" then [] else (s.splitOn ".").map pN
 def fPath (p : List Nat) : String := if p.isEmpty then "_" else String.intercalate "." (p.map toString)
@@ -283,11 +340,18 @@ def pCfgReq (o : String) : CfgReq :=
       | none => .bad
   | _ => .bad
 
-def cfgRun (world : String) (rest : List String) : String := Id.run do
+/-- key codes and external-function tables, sent once by a `cfgtab` request and kept by the driver -/
+structure Tabs where
+  K : Keys
+  E : Ext
+
+def noTabs : Tabs := { K := ⟨0, 0, 0, 0, 0, 0, 0, 0, 0, 0, 0, 0⟩, E := pExt "-" }
+
+def cfgRun (tabs : Tabs) (world : String) (rest : List String) : String := Id.run do
   let cfgs := (world.splitOn "|").map pCfg
   let nxt := (cfgs.flatMap Cfg.locs).foldl max 0 + 1
-  let mut K : Keys := ⟨0, 0, 0, 0, 0, 0, 0, 0, 0, 0, 0, 0⟩
-  let mut E : Ext := pExt "-"
+  let mut K : Keys := tabs.K
+  let mut E : Ext := tabs.E
   let mut sp : List Nat := []
   let mut ops : List String := []
   for t in rest do
@@ -328,7 +392,7 @@ def cfgRun (world : String) (rest : List String) : String := Id.run do
             outs := outs.push s!"{fCRes r}#{tail w}#1"
   return String.intercalate " " outs.toList
 
-def answer (line : String) : String :=
+def answer (tabs : Tabs) (line : String) : String :=
   match tokens line with
   | "coll" :: "a" :: ops => collHist copyOf true ops
   | "coll" :: "l" :: ops => collHist copyOf false ops
@@ -338,10 +402,22 @@ def answer (line : String) : String :=
       let a := pVDict d1; let b := pVDict d2
       s!"new:{fB (decide (gridKey id a = gridKey id b))} old:{fB (decide (hashKeyOld id a = hashKeyOld id b))}"
   | "pdfset" :: ops => pdfsetRun ops
-  | ["and", st, ss] => fB (andCheckS (pN st) (pStages ss))
-  | ["or", st, ss] => fB (orCheckS (pN st) (pStages ss))
-  | ["joint", fs, ss] => fListD toString (jointNames (pDict fs) (pStages ss))
-  | "cfg" :: world :: rest => cfgRun world rest
+  | ["and", st, ss] => fOB (andCheckE (pN st) (pStagesArg ss))
+  | ["or", st, ss] => fOB (orCheckE (pN st) (pStagesArg ss))
+  | ["joint", fs, ss] => (match jointNamesE (pDict fs) (pStagesArg ss) with
+      | some ns => fListD toString ns | none => "E")
+  | "dsc" :: ops => dscRun ops
+  | "cfg" :: world :: rest => cfgRun tabs world rest
   | _ => "bad-op"
 
-def main : IO Unit := do loop (← IO.getStdin) answer
+/-- `cfgtab K=… X=…` replaces the tables (answer `ok`); every other request is answered with the current ones -/
+def answerS (tabs : Tabs) (line : String) : Tabs × String :=
+  match tokens line with
+  | "cfgtab" :: rest =>
+      let t := rest.foldl (fun (t : Tabs) (x : String) =>
+        if x.startsWith "K=" then { t with K := pKeys (x.drop 2).toString }
+        else if x.startsWith "X=" then { t with E := pExt (x.drop 2).toString } else t) tabs
+      (t, "ok")
+  | _ => (tabs, answer tabs line)
+
+def main : IO Unit := do loopS (← IO.getStdin) noTabs answerS
